@@ -4,10 +4,11 @@ set -e
 N="$1"; W=/tmp/w/$N
 echo "== repo commits to pick"
 git -C /repo fetch -q "$W/repo" HEAD
-git -C /repo log --reverse --format='%h %s' HEAD..FETCH_HEAD
-for c in $(git -C /repo log --reverse --format='%H' HEAD..FETCH_HEAD); do
+# only commits whose patch is not in /repo yet (git cherry marks equivalents with '-')
+for c in $(git -C /repo cherry HEAD FETCH_HEAD | grep '^+' | cut -d' ' -f2); do
+  git -C /repo log -1 --format='%h %s' "$c"
   git -C /repo cherry-pick -x "$c" >/dev/null || { echo "CONFLICT on $c"; exit 1; }
 done
 echo "== verif merge"
 git -C /verif fetch -q "$W/verif" "$N"
-git -C /verif merge --no-edit FETCH_HEAD 2>&1 | tail -3
+git -C /verif merge --no-edit -X ours FETCH_HEAD 2>&1 | tail -3
